@@ -15,6 +15,7 @@ namespace vs
     {
         if (index == 0) return 0;
         const int o = cp.options[index];
+        if (o >= 4000) return 1;                               // a spurious wake-up of a condition waiter
         if (o >= 3000) return 1;                               // the wall clock jumped before this read: a deviation from the default environment
         if (o >= 2000) return 0;                               // which waiter a signal wakes: the implementation's free choice
         if (cp.current_enabled) return 1;                      // preemption of a runnable thread (or a timer firing under it)
